@@ -109,6 +109,10 @@ def _qb_worker(args):
                             "n": cnt if isinstance(cnt, int) else -1, "ndirect": nd})
             # the same window again after (a) a query that read the bucket and then FAILED, (b) a change of the bucket: what a
             # query reads is what the store holds now, whatever earlier queries of the process did
+            from datetime import datetime as _dt, timezone as _tz
+            if ws + (we - ws) / 2 < _dt(1970, 1, 2, tzinfo=_tz.utc):
+                ds.delete_bucket(bid)
+                continue          # the event added below would lie before 1970: outside the instants the properties talk about
             try:
                 q("qname", "x = query_bucket('%s'); y = query_bucket_eventcount('%s'); RETURN = no_such_function(x);" % (bid, bid), ws, we, ds)
             except Exception:
